@@ -26,6 +26,7 @@ type c20Probe struct {
 	Proto string `json:"p"` // tcp | udp | icmp
 	Port  int    `json:"port,omitempty"`
 	Burst int    `json:"b"`
+	Sport int    `json:"sport,omitempty"` // fixed source port (0: a fresh one per probe)
 }
 
 func genC20(seed uint64, idx int, tier string) *Scenario {
@@ -40,9 +41,16 @@ func genC20(seed uint64, idx int, tier string) *Scenario {
 		a := Actor{Kind: "scanner", Name: ip, Src: ip}
 		protos := [][]string{{"tcp"}, {"udp"}, {"icmp"}, {"tcp", "udp"}, {"tcp", "udp", "icmp"}}[r.Intn(5)]
 		nb := 1
-		if r.Chance(0.2) {
+		if r.Chance(0.3) {
 			nb = 2
 		}
+		// some scanners probe from one fixed source port (every SYN of a repeat scan then hits a 4-tuple the
+		// listener may still be tracking)
+		fixedSport := 0
+		if r.Chance(0.3) {
+			fixedSport = r.Range(30000, 60000)
+		}
+		var prevPorts []int
 		for b := 0; b < nb; b++ {
 			n := r.Range(1, 12)
 			if r.Chance(0.1) {
@@ -53,12 +61,16 @@ func genC20(seed uint64, idx int, tier string) *Scenario {
 			ports := make([]int, nports)
 			for i := range ports {
 				ports[i] = r.Range(1024, 60000)
+				if b > 0 && len(prevPorts) > 0 && r.Chance(0.6) {
+					ports[i] = prevPorts[r.Intn(len(prevPorts))] // the repeat scan overlaps the first one
+				}
 				for ports[i] == 1900 || ports[i] == 5060 || ports[i] == 1433 || ports[i] == 6379 || ports[i] == 9200 {
 					ports[i]++ // ports with a protocol decoder are not "ports without a decoder"
 				}
 			}
+			prevPorts = ports
 			for i := 0; i < n; i++ {
-				p := c20Probe{Proto: r.Pick(protos), Burst: b}
+				p := c20Probe{Proto: r.Pick(protos), Burst: b, Sport: fixedSport}
 				if p.Proto != "icmp" {
 					p.Port = ports[r.Intn(nports)] // repeated ports
 				}
@@ -158,6 +170,9 @@ func runC20(t *testing.T, sc *Scenario) Result {
 			}
 			sportCtr++
 			sport := uint16(20000 + sportCtr%30000)
+			if p.Sport != 0 {
+				sport = uint16(p.Sport)
+			}
 			var pkt []byte
 			key := p.Proto
 			switch p.Proto {
